@@ -51,6 +51,13 @@ func (fr *frame) concLen(v value, t types.Type, panicMsg string) int {
 	if _, signed, _ := intInfo(t); signed && i.decideBool(i.tt.App("bvslt", 0, s.t, i.tt.Const(w, 0)), "makeslice<0") {
 		fr.tpanic(panicMsg)
 	}
+	// an allocation whose attacker-controlled size can exceed the limit the harness
+	// declared (vstub.AllocLimit) is a violation: the solver decides it over all values
+	if al := i.allocLimit; al > 0 {
+		over := i.tt.App("bvugt", 0, s.t, i.tt.Const(w, uint64(al)))
+		i.nasserts++
+		i.assertTerm(fr, i.tt.App("not", 0, over), "an allocation sized by untrusted input never exceeds the documented limit")
+	}
 	// larger than the exploration bound?  recorded as a cut, not explored further
 	lim := int64(fr.i.m.allocBound)
 	gt := "bvugt"
